@@ -237,6 +237,12 @@ impl<T: Value> Var<T> {
                 t.stabilisation_num.get().0
             );
             self.set_at.set(t.stabilisation_num.get());
+            /* A variable made with [var_current_scope] inside a bind is invalidated when that
+            bind re-runs. It keeps its value, but an invalid node is never stale and must
+            never be scheduled. */
+            if !watch.is_valid() {
+                return;
+            }
             debug_assert!(watch.is_stale());
             if watch.is_necessary() && !watch.is_in_recompute_heap() {
                 tracing::info!(
